@@ -169,6 +169,9 @@ Definition all_attr_names : list string := map ar_name attr_rule_table.
 (* ---------------------------------------------------------------- the engine, version aspect *)
 Definition R_INVALID_MESSAGE : Z := 4.
 Definition R_OPERATION_NOT_SUPPORTED : Z := 5.
+Definition R_RESPONSE_TOO_LARGE : Z := 2.
+Definition R_AUTHENTICATION_NOT_SUCCESSFUL : Z := 3.
+Definition R_GENERAL_FAILURE : Z := 256.
 
 Inductive outcome := OutOk | OutErr (reason : Z).
 Definition outcome_failed (o : outcome) : bool := match o with OutOk => false | OutErr _ => true end.
@@ -244,6 +247,34 @@ Section Engine.
         | RespMessage hv os => (st', WireMessage hv os, tr)
         end
     end.
+  (* every answer path of _handle_message_loop once the request has been decoded: authentication of the client fails;
+     the engine fails unexpectedly; the response cannot be encoded; the encoded response exceeds the Maximum Response
+     Size.  (The two paths in front of the decoding - no usable certificate, undecodable bytes - answer in a 1.0 header:
+     there is no request version yet.) *)
+  Inductive session_fault := SfNone | SfAuthFails | SfEngineCrash | SfUnencodable | SfTooLarge.
+
+  Definition request_decodes (req : request) : bool :=
+    match rq_items req with [] => true | _ :: _ => known_kmip_version (rq_version req) end.
+
+  Definition session_answer (f : session_fault) (req : request) (st : St) : St * wire_response * list string :=
+    if negb (request_decodes req) then (st, WireError (1, 0) R_INVALID_MESSAGE, [])
+    else match f with
+         | SfNone => session_handle req st
+         | SfAuthFails => (st, WireError (rq_version req) R_AUTHENTICATION_NOT_SUCCESSFUL, [])
+         | SfEngineCrash => (st, WireError (rq_version req) R_GENERAL_FAILURE, [])
+         | SfUnencodable =>
+             let '(st', r, tr) := session_handle req st in
+             match r with
+             | WireMessage hv _ => (st', WireError hv R_GENERAL_FAILURE, tr)         (* built from the response's own header *)
+             | WireError _ _ => (st', r, tr)
+             end
+         | SfTooLarge =>
+             let '(st', r, tr) := session_handle req st in
+             match r with
+             | WireMessage _ _ => (st', WireError (rq_version req) R_RESPONSE_TOO_LARGE, tr)   (* built from the request's header *)
+             | WireError _ _ => (st', r, tr)
+             end
+         end.
 End Engine.
 
 Arguments Build_item {Payload}.
